@@ -1,4 +1,5 @@
 """C04 - inherited contracts combine per Liskov: preconditions OR-ed, postconditions and invariants AND-ed."""
+import functools
 from typing import Any, Dict, FrozenSet, List, Optional, Tuple
 
 import icontract
@@ -22,6 +23,13 @@ KINDS = ["method", "static", "class", "prop_get", "prop_set"]
 ACCEPT_ALL = "ACCEPT_ALL"
 
 
+def _foreign(fn: Any) -> Any:
+    @functools.wraps(fn)
+    def traced(*args: Any, **kwargs: Any) -> Any:
+        return fn(*args, **kwargs)
+    return traced
+
+
 class Holder:
     def __init__(self) -> None:
         self.tv = None  # type: Any
@@ -31,7 +39,7 @@ class Holder:
 
 class World:
     def __init__(self, shape: str, kind: str, opts: Tuple[int, ...], invs: Tuple[bool, ...], via: int,
-                 inv_all: bool = False) -> None:
+                 inv_all: bool = False, fg: bool = False) -> None:
         self.h = Holder()
         self.classes = {}  # type: Dict[str, type]
         self.creation_error = {}  # type: Dict[str, BaseException]
@@ -68,6 +76,9 @@ class World:
                     fn = icontract.ensure(cond("post", cname), error=err("post", cname))(fn)
                 if has_pre:
                     fn = icontract.require(cond("pre", cname), error=err("pre", cname))(fn)
+                if fg:
+                    # a third-party functools.wraps decorator on top of the member's contract stack
+                    fn = _foreign(fn)
                 if kind == "static":
                     ns["m"] = staticmethod(fn)
                 elif kind == "class":
@@ -155,7 +166,7 @@ def reference(shape: str, opts: Tuple[int, ...], invs: Tuple[bool, ...]) -> Dict
 
 def run_dag(shape_i: int, kind_i: int, via: int, inv_all: bool, o0: int, o1: int, o2: int, o3: int, i0: bool, i1: bool, i2: bool, i3: bool,
             a0: bool, a1: bool, a2: bool, a3: bool, q0: bool, q1: bool, q2: bool, q3: bool,
-            v0: bool, v1: bool, v2: bool, v3: bool) -> Tuple[bool, bool]:
+            v0: bool, v1: bool, v2: bool, v3: bool, fg: bool = False) -> Tuple[bool, bool]:
     shape_i, kind_i, via = conc(shape_i, 0, len(SHAPE_NAMES) - 1), conc(kind_i, 0, len(KINDS) - 1), conc(via, 0, 1)
     shape, kind = SHAPE_NAMES[shape_i], KINDS[kind_i]
     spec = SHAPES[shape]
@@ -165,11 +176,12 @@ def run_dag(shape_i: int, kind_i: int, via: int, inv_all: bool, o0: int, o1: int
     if kind in ("static", "class"):
         pass
     inv_all = True if inv_all else False  # the invariants are declared with check_on=ALL instead of the default CALL
-    key = (shape, kind, opts, invs, via, inv_all)
+    fg = True if fg else False  # every defined member carries a foreign functools.wraps decorator above its contracts
+    key = (shape, kind, opts, invs, via, inv_all, fg)
     with untraced():
         w = _CACHE.get(key)
         if w is None:
-            w = World(shape, kind, opts, invs, via, inv_all)
+            w = World(shape, kind, opts, invs, via, inv_all, fg)
             _CACHE[key] = w
         w.h = Holder()
         ref = reference(shape, opts, invs)
@@ -264,7 +276,7 @@ def run_dag(shape_i: int, kind_i: int, via: int, inv_all: bool, o0: int, o1: int
 
 
 ALL = ["shape_i", "kind_i", "via", "inv_all", "o0", "o1", "o2", "o3", "i0", "i1", "i2", "i3", "a0", "a1", "a2", "a3",
-       "q0", "q1", "q2", "q3", "v0", "v1", "v2", "v3"]
+       "q0", "q1", "q2", "q3", "v0", "v1", "v2", "v3", "fg"]
 
 
 # ---------------------------------------------------------------------------------------------
@@ -431,7 +443,7 @@ def harnesses(tier: str) -> List[H]:
         si, ki = SHAPE_NAMES.index(shape), KINDS.index(kind)
         split = range(len(OPTS)) if n == 4 else [None]
         for o0 in split:
-            defaults = {"shape_i": si, "kind_i": ki, "via": via}  # type: Dict[str, Any]
+            defaults = {"shape_i": si, "kind_i": ki, "via": via, "fg": False}  # type: Dict[str, Any]
             for i in range(4):
                 defaults.update({"o%d" % i: 0, "i%d" % i: False, "a%d" % i: True, "q%d" % i: True, "v%d" % i: True})
             params = []
@@ -444,14 +456,18 @@ def harnesses(tier: str) -> List[H]:
                     params.append(I("o%d" % i, 0, len(OPTS) - 1))
             inv_classes = [0]
             params += [B("i%d" % i) for i in inv_classes] + [B("inv_all")]
+            with_fg = tier == "thorough" or (kind == "method" and n == 3)
+            if with_fg:
+                params += [B("fg")]
             params += truth(n) + [B("v%d" % i) for i in inv_classes]
             name = "dag_{}_{}_via{}{}".format(shape, kind, via, "" if o0 is None else "_o%d" % o0)
             out.append(H(name, bind(run_dag, (), ALL, defaults, [p.name for p in params]), params, tiers=(tier,),
                          timeout=900 if tier == "quick" else 3600,
                          family="hierarchy {} {}; member kind {}; classes created by {}; every class: does not define m / "
-                                "defines it bare / +pre / +post / +pre+post; invariant on {}; a call on an instance of "
+                                "defines it bare / +pre / +post / +pre+post{}; invariant on {}; a call on an instance of "
                                 "EVERY class of the hierarchy is judged".format(
                                     shape, SHAPES[shape], kind, ["DBCMeta(name, bases, ns)", "an exec'd class statement"][via],
+                                    ", with or without a foreign functools.wraps decorator above the contracts" if with_fg else "",
                                     "the root (check_on CALL or ALL)"),
                          family_size=len(OPTS) ** (n if o0 is None else n - 1) * 2 ** len(inv_classes)))
     out.append(H("ctor", bind(run_ctor, (), ["which", "sub_defines", "tpre", "tpost"], {},
